@@ -109,6 +109,24 @@ def bounds_asserts(f, P):
     return const, other
 
 
+CONV = re.compile(r"^\(*move \(<[\w:<>', ]+ as (?:rvals::)?(?:AsRefSteelVal|AsRefMutSteelVal|FromSteelVal)>::(?:as_ref|as_mut_ref|from_steelval)(?:::<[^()]*>)?\(copy \(&\(\*%s\)\[\(const (\d+)_usize\)\]\)\)\)+$")
+
+
+def conversion_unwraps(f, P):
+    """`T::as_ref(&args[i]).unwrap()` and the like: the conversion of a script argument fails for
+    every argument of another kind, and a script may pass any kind, so reaching the unwrap at all
+    is reaching a panic.  -> list of (bb, i)"""
+    out = []
+    rx = re.compile(CONV.pattern % re.escape(P))
+    for b in f.blocks.values():
+        t = b.term
+        if t.get("kind") == "call" and re.search(r"(?:Result|Option)::<.*>::(?:unwrap|expect)$", t["callee"]) and t["args"]:
+            m = rx.match(mir.origin(f, t["args"][0]))
+            if m:
+                out.append((b.n, int(m.group(1))))
+    return out
+
+
 def paths_to(f, target, P, limit=3000):
     res = []
     stack = [(0, [], frozenset())]
@@ -140,12 +158,17 @@ def check_fn(key, f, timeout=60):
     if P is None:
         return {"name": key, "res": "skip", "why": "no &[SteelVal] parameter"}
     const, other = bounds_asserts(f, P)
-    if not const:
+    unw = conversion_unwraps(f, P)
+    if not const and not unw:
         return {"name": key, "res": "none", "uninterpreted": len(other)}
     alts = []
     for bb, idx in const:
         for conds in paths_to(f, bb, P):
             alts.append("(and (bvule len (_ bv%d 64)) %s)" % (idx, " ".join(conds)))
+    for bb, idx in unw:
+        # the argument's kind is a free choice of the script: the conversion may fail on every path
+        for conds in paths_to(f, bb, P):
+            alts.append("(and true %s)" % " ".join(conds))
     base = "(set-logic QF_BV)\n(declare-const len (_ BitVec 64))\n(assert (or false %s))\n" % " ".join(alts)
     # verdict from the unrestricted query; a script-sized witness from a second one
     t0 = time.time()
@@ -159,5 +182,5 @@ def check_fn(key, f, timeout=60):
             if p2.stdout.startswith("sat"):
                 vals = [int(x, 16) for x in re.findall(r"#x([0-9a-f]{16})", p2.stdout)]
                 break
-    return {"name": key, "res": res, "len": vals[0] if vals else None, "asserts": len(const), "uninterpreted": len(other),
+    return {"name": key, "res": res, "len": vals[0] if vals else None, "asserts": len(const), "unwraps": len(unw), "uninterpreted": len(other),
             "paths": len(alts), "dt": time.time() - t0}
